@@ -15,7 +15,7 @@ FAR = {1: [60.0], 2: [60.0, -60.0]}
 
 class ClfSubject:
     def __init__(self, name, factory, kernel=False, freq=False, multi=False, own_proba=True, partial=False, cost=1.0, quick=True,
-                 supports_weights=True, supervised=False, window=None):
+                 supports_weights=True, supervised=False, window=None, only_labeled=False):
         self.name = name
         self.factory = factory  # (classes, missing_label, cost_matrix, random_state) -> classifier
         self.kernel = kernel  # far query points are meaningful (kernel underflow)
@@ -28,6 +28,7 @@ class ClfSubject:
         self.supports_weights = supports_weights
         self.supervised = supervised  # purely supervised learner (C12)
         self.window = window  # sliding window size: the effective training set is the last `window` samples
+        self.only_labeled = only_labeled  # ... the last `window` *labeled* samples (unlabeled ones are discarded on arrival)
 
     def make(self, classes=None, missing_label=NAN, cost_matrix=None, random_state=0):
         return self.factory(classes, missing_label, cost_matrix, random_state)
@@ -91,12 +92,16 @@ def _est(name):
     raise KeyError(name)
 
 
-def _slide(classes, ml, cm, rs):
+def _slide(classes, ml, cm, rs, only_labeled=False):
     from skactiveml.classifier import ParzenWindowClassifier, SlidingWindowClassifier
 
     return SlidingWindowClassifier(ParzenWindowClassifier(classes=classes, missing_label=ml, cost_matrix=cm, metric_dict={"gamma": 0.5},
                                                           random_state=0),
-                                   classes=classes, missing_label=ml, cost_matrix=cm, window_size=3, random_state=rs)
+                                   classes=classes, missing_label=ml, cost_matrix=cm, window_size=3, only_labeled=only_labeled, random_state=rs)
+
+
+def _slide_only(classes, ml, cm, rs):
+    return _slide(classes, ml, cm, rs, only_labeled=True)
 
 
 def _aec(voting):
@@ -127,6 +132,7 @@ CLASSIFIERS = [
     ClfSubject("SklearnClassifier[GaussianNB]", _sk("gnb"), partial=True, cost=2, supervised=True),
     ClfSubject("SklearnClassifier[DecisionTree]", _sk("tree"), cost=2, supervised=True),
     ClfSubject("SlidingWindowClassifier[PWC]", _slide, kernel=True, freq=True, partial=True, cost=2, window=3),
+    ClfSubject("SlidingWindowClassifier[PWC,only_labeled]", _slide_only, kernel=True, freq=True, partial=True, cost=2, window=3, only_labeled=True),
     ClfSubject("AnnotatorEnsembleClassifier[hard]", _aec("hard"), multi=True, own_proba=False, cost=2),
     ClfSubject("AnnotatorEnsembleClassifier[soft]", _aec("soft"), multi=True, cost=2),
     ClfSubject("AnnotatorLogisticRegression", _alr, multi=True, cost=6, supervised=True),
@@ -211,6 +217,7 @@ def _skr(name, normal=False):
 REGRESSORS = [
     RegSubject("NICKernelRegressor", _nic(), kernel=True, proper_prior=True),
     RegSubject("NICKernelRegressor[prior2]", _nic(mu_0=1.0, kappa_0=1.0, sigma_sq_0=2.0, nu_0=3.0), kernel=True, proper_prior=True),
+    RegSubject("NICKernelRegressor[prior at 1.7e9]", _nic(mu_0=1.7e9, kappa_0=1.0, sigma_sq_0=2.0, nu_0=3.0), kernel=True, proper_prior=True),
     RegSubject("NICKernelRegressor[improper]", _nic(kappa_0=0.0, nu_0=0.0, sigma_sq_0=0.0), kernel=True, proper_prior=False),
     RegSubject("NadarayaWatsonRegressor", _nw, kernel=True, proper_prior=False, needs_label=True),
     RegSubject("SklearnRegressor[LinearRegression]", _skr("linreg"), probabilistic=False, wrapper=True),
